@@ -519,6 +519,17 @@ func c16Structural() []c16Struct {
 			sg2 := append([][]byte{}, sg...)
 			sg2[1] = s1
 			add(shape+":same-key-twice-in-script-one-signature-twice", c16One(unD, c1617RawSet{c1617Invoke(sg2), verDup}), true)
+			// the two copies of the key NOT adjacent in the script: [K0,K1,K0,...] (scripts are not required to list keys sorted)
+			if n >= 3 {
+				pushesNA := append([][]byte{}, pushes...)
+				pushesNA[1], pushesNA[2] = pushesNA[2], pushesNA[1]
+				add(shape+":same-key-twice-not-adjacent", c16One(unD, c1617RawSet{c1617Invoke(sg), c1617MultiScript(m, pushesNA, n, "")}), true)
+				if n >= 4 {
+					pushesNB := append([][]byte{}, pushes...)
+					pushesNB[1], pushesNB[n-1] = pushesNB[n-1], pushesNB[1]
+					add(shape+":same-key-twice-first-and-last", c16One(unD, c1617RawSet{c1617Invoke(sg), c1617MultiScript(m, pushesNB, n, "")}), true)
+				}
+			}
 			// the same key in two encodings (compressed and uncompressed) when it is a P-256 key
 			if kb2, ok := c1617KeyBytes(ks[0], "uncomp"); ok {
 				pushes2 := append([][]byte{}, pushes...)
